@@ -413,6 +413,7 @@ type Task struct {
 	pendingLets map[string]Val
 	modelNames map[string]string // get-value term -> witness name
 	nfn        int
+	quantDepth int
 	lateFacts  []string          // facts about ghost identities: valid everywhere, added to every query
 }
 
@@ -474,6 +475,9 @@ func (t *Task) fresh(prefix, sort string) string {
 }
 
 func (t *Task) assume(pc, fact string) {
+	if t.quantDepth > 0 {
+		return // side facts about terms with bound variables cannot be stated outside the binder
+	}
 	f := sImp(pc, fact)
 	if f == tTrue {
 		return
@@ -750,6 +754,7 @@ func (t *Task) loadAt(s *State, prefix, path, ref, idx string, T types.Type) Val
 		}
 		if k == KFunc {
 			t.funcValFact(s.pc, x)
+			t.funcTypeFact(s.pc, x, T)
 		}
 		return Val{K: k, S: x, T: T}
 	}
@@ -859,6 +864,7 @@ func (t *Task) freshValue(pc, hint string, T types.Type) Val {
 		}
 		if k == KFunc {
 			t.funcValFact(pc, x)
+			t.funcTypeFact(pc, x, T)
 		}
 		return Val{K: k, S: x, T: T}
 	}
